@@ -2305,7 +2305,7 @@ func (f *fragment) importRoaring(ctx context.Context, data []byte, clear bool) e
 		}
 		if updateCache {
 			anyChanged = true
-			f.cache.BulkAdd(rowID, f.cache.Get(rowID)+uint64(changes))
+			f.cache.BulkAdd(rowID, f.storage.CountRange(rowID*ShardWidth, (rowID+1)*ShardWidth))
 		}
 	}
 	// we only set this if we need to update the cache
